@@ -56,20 +56,24 @@ ActObs(s) == [received |-> s.received, updates |-> s.updates]
 
 -----------------------------------------------------------------------------
 (* encoder *)
-EncInit == [now |-> 0, own |-> Nothing, updOk |-> TRUE, gout |-> Absent, updates |-> 0]
+(* The inner getter SAMPLES at its own update: what the environment prepares (pending) becomes its output (gout) only when the   *)
+(* wrapper updates it, so a wrapper that reads the getter before updating it publishes the previous cycle's reading.            *)
+EncInit == [now |-> 0, own |-> Nothing, updOk |-> TRUE, gout |-> Absent, pending |-> Absent, updates |-> 0]
 EncOps == {[op |-> "getter", o |-> "err"], [op |-> "getter", o |-> "none"], [op |-> "getter", o |-> "some"], [op |-> "getter", o |-> "stale"],
            [op |-> "updok", b |-> FALSE], [op |-> "updok", b |-> TRUE], [op |-> "update"]}
 EncStep(o) ==
   CASE o.op = "getter" ->
          <<[st EXCEPT !.now = @ + 1,
-                      !.gout = CASE o.o = "err" -> Err(1) [] o.o = "none" -> Absent [] o.o = "some" -> Some(st.now + 1, StateVal(st.now + 1))
-                                   [] o.o = "stale" -> Some(0, StateVal(st.now + 1))], RetOk>>      \* a reading with an old timestamp is written all the same
+                      !.pending = CASE o.o = "err" -> Err(1) [] o.o = "none" -> Absent [] o.o = "some" -> Some(st.now + 1, StateVal(st.now + 1))
+                                    [] o.o = "stale" -> Some(0, StateVal(st.now + 1))], RetOk>>      \* a reading with an old timestamp is written all the same
     [] o.op = "updok" -> <<[st EXCEPT !.updOk = o.b], RetOk>>
     [] o.op = "update" ->
-         IF ~st.updOk THEN <<st, RetErr(UpdErr)>>                                   \* the inner update's error is propagated first
-         ELSE IF IsErr(st.gout) THEN <<[st EXCEPT !.updates = @ + 1], RetErr(st.gout.e)>>
-         ELSE IF IsAbsent(st.gout) THEN <<[st EXCEPT !.updates = @ + 1], RetOk>>       \* terminal untouched
-         ELSE <<[st EXCEPT !.updates = @ + 1, !.own = Just([t |-> st.gout.t, v |-> st.gout.v])], RetOk>>
+         IF ~st.updOk THEN <<st, RetErr(UpdErr)>>                                   \* the inner update's error is propagated first; nothing was sampled
+         ELSE LET g == st.pending                                                   \* the inner update samples
+                  s1 == [st EXCEPT !.gout = g, !.updates = @ + 1]
+              IN  IF IsErr(g) THEN <<s1, RetErr(g.e)>>
+                  ELSE IF IsAbsent(g) THEN <<s1, RetOk>>                            \* terminal untouched
+                  ELSE <<[s1 EXCEPT !.own = Just([t |-> g.t, v |-> g.v])], RetOk>>
 EncObs(s) == [own |-> s.own, updates |-> s.updates]
 
 -----------------------------------------------------------------------------
@@ -141,8 +145,8 @@ ActActionLaw ==
         /\ (st'.updates = st.updates + 1 <=> (IsNothing(Seen(st)) \/ st.setOk))]_vars
 EncActionLaw ==
   [][(Family = "encoder" /\ hist' # hist /\ hist'[Len(hist')].a.op = "update") =>
-        /\ (st.updOk /\ IsSome(st.gout) => st'.own = Just([t |-> st.gout.t, v |-> st.gout.v]))
-        /\ (~(st.updOk /\ IsSome(st.gout)) => st'.own = st.own)]_vars
+        /\ (st.updOk /\ IsSome(st.pending) => st'.own = Just([t |-> st.pending.t, v |-> st.pending.v]))
+        /\ (~(st.updOk /\ IsSome(st.pending)) => st'.own = st.own)]_vars
 (* the wrapper's controller and the stand-alone controller always show the same output *)
 PidLaw == (Family = "pid") => CmdObs(st.pid) = CmdObs(st.twin)
 Laws == ActLaw /\ PidLaw
